@@ -20,7 +20,8 @@ func isHTTPS(t string) bool { return t == "PAN-OS" || t == "NSX" }
 // point where rec was received in the baseline run.
 func deviationsAt(sc *dscenario, rec sim.Rec) []string {
 	if isHTTPS(sc.devType) {
-		l := []string{sim.DevHTTP500, sim.DevHTTP403, sim.DevMalformed, sim.DevClose, sim.DevStall, sim.DevAPIError}
+		l := []string{sim.DevHTTP500, sim.DevHTTP403, sim.DevHTTP502E, sim.DevHTTP400J, sim.DevMalformed, sim.DevClose, sim.DevStall, sim.DevAPIError,
+			sim.DevRedirClose, sim.DevRedirLoop}
 		if rec.Class == sim.ClSave {
 			l = append(l, sim.DevCommitMsg, sim.DevJobFail, sim.DevJobPend)
 		}
